@@ -12,18 +12,22 @@ ASSUMPTIONS = ["tracer replaced by the synchronous stub (so tracer termination i
                "corpus of five programs; the other node kinds of the property's corpus are outside the registered bounds"]
 def sc(entry, name, bounds, K=100, tiers=("quick", "thorough")):
     return dict(name=name, entry=entry, K=K, reach=["quiescent"], overrides=STD, bounds=bounds, spawn_limits={"exclusiveGateway).run": 1}, tiers=tiers,
-                expect_obligations=["a cancelled instance does not move on"])
+                expect_obligations=["a cancelled instance does not move on", "after cancellation every sender handle registered with the instance's tracer is released (the tracer can terminate)"])
 
 
 RELAY_EO = ["every Send of a registered sender returns after cancellation", "after cancellation and the last sender's Done the inner tracer's goroutine has exited",
             "after cancellation the relay has released its sender handle and the outer tracer's goroutine has exited",
             "traces sent by a registered sender before it reports Done are relayed even after cancellation"]
+RELAY2_EO = ["every Send of a registered sender returns after cancellation", "after cancellation and the last sender's Done the inner tracer's goroutine has exited",
+             "after cancellation the relay has released its sender handle on the outer tracer",
+             "traces sent by a registered sender before it reports Done are relayed even after cancellation"]
 SCENARIOS = [
     sc("VerifC07_ListeningCatch", "C07 cancel while a catch event listens (quiet point)", "token listening at a catch event; cancellation once everything is quiet"),
     sc("VerifC07_ListeningCatchAnywhere", "C07 cancel at an arbitrary point, catch event", "token on its way to / listening at a catch event; cancellation at every point of every interleaving"),
     sc("VerifC07_ExclusiveGateway", "C07 cancel at an arbitrary point, exclusive gateway", "one token at an exclusive gateway with a conditional and a default flow; cancellation at every point of every interleaving", K=120, tiers=("thorough",)),
     sc("VerifC07_EventBasedWaiting", "C07 cancel while the alternatives of an event-based gateway wait", "two alternatives (stand-in event nodes) waiting; cancellation once everything is quiet", K=120),
     sc("VerifC07_HalfFullJoin", "C07 cancel at an arbitrary point, half-full parallel join", "one token at a 2-way parallel join; cancellation at every point of every interleaving"),
+    sc("VerifC07_JoinEnteredTwice", "C07 cancel while two tokens wait at a 3-way join", "two tokens parked at a 3-way parallel join (gateway entered twice); cancellation once everything is quiet"),
     dict(name="C07 cancel while a task request is pending", entry="VerifC07_PendingTask", K=120, reach=["quiescent"], overrides=STD, tiers=("thorough",),
          expect_obligations=["a cancelled instance does not move on"],
          bounds="one token at a pending task, cancellation at every point of every interleaving"),
@@ -32,4 +36,12 @@ SCENARIOS = [
          expect_obligations=RELAY_EO[:3],
          bounds="real inner + outer tracer and NewRelay; context cancelled, then 1 registered sender x 2 traces; relay subscription capacity 1 (stand-in for 10); "
                 "did not close within 600 s / 39 steps when written - kept in the thorough tier, INCONCLUSIVE when it does not close"),
+    dict(name="C07 inner tracer + relay wind down (outer tracer stand-in), cancel first", entry="VerifC07_RelayStubOut_CancelFirst_2", harness="tracing", K=90, reach=["quiescent"], native=False, tiers=("thorough",),
+         overrides={"(*github.com/olive-io/bpmn/v2/pkg/tracing.tracer).Subscribe": "verifSubscribe1"},
+         expect_obligations=RELAY2_EO,
+         bounds="real inner tracer and NewRelay goroutine, outer tracer a recording stand-in; context cancelled, then 1 registered sender x 2 traces; relay subscription capacity 1 (stand-in for 10)"),
+    dict(name="C07 inner tracer + relay wind down (outer tracer stand-in), cancel anywhere", entry="VerifC07_RelayStubOut_Anywhere_2", harness="tracing", K=120, reach=["quiescent"], native=False, tiers=("thorough",),
+         overrides={"(*github.com/olive-io/bpmn/v2/pkg/tracing.tracer).Subscribe": "verifSubscribe1"},
+         expect_obligations=RELAY2_EO,
+         bounds="as above, cancellation from a goroutine of its own (every point of every interleaving)"),
 ]
